@@ -25,6 +25,14 @@ def with_other_names(task: dict) -> dict:
     return t
 
 
+def without_objects(task: dict) -> dict:
+    """a problem that declares no object at all: every individual is a domain constant (the object table is empty, not None)"""
+    t = dict(task)
+    t["objects"] = {}
+    t["label"] = "[problem without objects] " + task["label"]
+    return t
+
+
 def with_state_route(task: dict, k: int) -> dict:
     t = dict(task)
     t["state_route"] = "trajectory" if k % 2 else "trajectory_without_problem"
@@ -68,9 +76,14 @@ def applicable_tasks(tier: str, seed: int, cap=None) -> List[dict]:
     for pl, const, pre, origin in pre_programs(tier, seed):
         params = G.PARAM_LISTS[pl]
         text = G.domain_text([("act", params, pre, ["and"])], const=const)
+        if const and params and all(t == "t1" for _, t in params) and (origin == "core" or len(tasks) % 4 == 0):
+            # every argument is the constant and the problem declares no object
+            tasks.append(without_objects(_mk(text, ["k"] * len(params), "applicable", render(pre), cap=cap, origin=origin, const=const)))
         for args in G.arg_tuples(params, const, limit=lim):
             tasks.append(_mk(text, args, "applicable", render(pre), cap=cap, origin=origin, const=const))
-            if len(tasks) % (7 if tier == "quick" else 5) == 0:
+            if const and all(a == "k" for a in args) and (origin == "core" or len(tasks) % 3 == 0):
+                tasks.append(without_objects(tasks[-1]))
+            elif len(tasks) % (7 if tier == "quick" else 5) == 0:
                 tasks.append(with_other_names(tasks[-1]))
             elif len(tasks) % 11 == 0:
                 tasks.append(with_state_route(tasks[-1], len(tasks)))
@@ -115,13 +128,19 @@ def apply_tasks(tier: str, seed: int, cap=None, orders=None) -> List[dict]:
             pre = G.precondition(rng, params, const, {"numeric"} if rng.random() < 0.5 else set())
         text = G.domain_text([("act", params, pre, eff)], const=const)
         n_groups = render(eff).count("(when") + 1
+        if const and params and all(t == "t1" for _, t in params) and (origin == "core" or len(tasks) % 4 == 0):
+            tasks.append(without_objects(_mk(text, ["k"] * len(params), "apply", render(eff) + ("" if pre == ["and"] else "  PRE " + render(pre)),
+                                             cap=cap, origin=origin, const=const, order=None, max_paths=1500 if tier == "quick" else 6000,
+                                             timeout_ms=4000 if tier == "quick" else 20000)))
         for args in G.arg_tuples(params, const, limit=lim):
             for o in (orders if n_groups > 1 or len(eff) > 2 else orders[:1]):
                 tasks.append(_mk(text, args, "apply", render(eff) + ("" if pre == ["and"] else "  PRE " + render(pre)),
                                  cap=cap, origin=origin, const=const, order=o,
                                  max_paths=1500 if tier == "quick" else 6000,
                                  timeout_ms=4000 if tier == "quick" else 20000))
-                if len(tasks) % (7 if tier == "quick" else 5) == 0:
+                if const and all(a == "k" for a in args) and (origin == "core" or len(tasks) % 3 == 0):
+                    tasks.append(without_objects(tasks[-1]))
+                elif len(tasks) % (7 if tier == "quick" else 5) == 0:
                     tasks.append(with_other_names(tasks[-1]))
                 elif len(tasks) % 11 == 0:
                     tasks.append(with_state_route(tasks[-1], len(tasks)))
